@@ -41,6 +41,7 @@ class Canon:
         self.const_of = const_of      # callable(expr) -> python value or None, for module-level constants
         self.inline = inline          # callable(call node) -> FunctionDef of a single-expression helper, or None
         self._depth = 0
+        self.extra_ints = set()       # local names inferred to hold integers (see infer_int_locals)
         if int_names is None:
             self.int_name = lambda t: False
         elif callable(int_names):
@@ -104,6 +105,8 @@ class Canon:
     def is_int(self, e):
         if isinstance(e, ast.Constant):
             return isinstance(e.value, int) and not isinstance(e.value, bool)
+        if isinstance(e, ast.Name) and e.id in self.extra_ints:
+            return True
         if isinstance(e, (ast.Name, ast.Attribute, ast.Subscript)):
             return self.int_name(norm(e))
         if isinstance(e, ast.Call):
@@ -424,6 +427,13 @@ def _cmp_atoms(canon, left, op, right, leaf):
                 if flip:
                     o = {ast.Lt: ast.Gt, ast.Gt: ast.Lt, ast.LtE: ast.GtE, ast.GtE: ast.LtE}[o]
                 xt = norm(x)
+                b_ = _bit_of(x)
+                if b_ is not None and b_[2] == "mask":
+                    # a masked bit is >= 0: `x < 1` is `bit clear`
+                    kk = {ast.Lt: k.value, ast.LtE: k.value + 1, ast.GtE: k.value, ast.Gt: k.value + 1}[o]
+                    if kk == 1:
+                        atom = leaf(x, "bit(%s, %s)" % (b_[0], b_[1]))
+                        return f_not(atom) if o in (ast.Lt, ast.LtE) else atom
                 if o is ast.Lt:
                     return leaf(ast.Compare(x, [ast.Lt()], [ast.Constant(k.value)]), "%s < %d" % (xt, k.value))
                 if o is ast.LtE:
@@ -455,6 +465,57 @@ def _cmp_atoms(canon, left, op, right, leaf):
             f = leaf(ast.Compare(left, [ast.In()], [right]), "%s in %s" % (lt, rt))
         return f if isinstance(op, ast.In) else f_not(f)
     return leaf(ast.Compare(left, [op], [right]), norm(ast.Compare(left, [op], [right])))
+
+
+def infer_int_locals(func_node, canon):
+    """locals every binding of which is integer arithmetic (fixpoint); loop targets over range()"""
+    binds = {}
+    for n in ast.walk(func_node):
+        if isinstance(n, ast.Assign):
+            for t in n.targets:
+                if isinstance(t, ast.Name):
+                    binds.setdefault(t.id, []).append(n.value)
+                elif isinstance(t, (ast.Tuple, ast.List)):
+                    for i, x in enumerate(t.elts):
+                        if isinstance(x, ast.Name):
+                            v = n.value.elts[i] if isinstance(n.value, (ast.Tuple, ast.List)) and len(n.value.elts) == len(t.elts) else None
+                            if v is None and isinstance(n.value, ast.Call) and isinstance(n.value.func, ast.Name) and n.value.func.id == "divmod":
+                                v = ast.BinOp(n.value.args[0], ast.FloorDiv(), n.value.args[1]) if len(n.value.args) == 2 else None
+                            binds.setdefault(x.id, []).append(v)
+        elif isinstance(n, ast.AnnAssign) and isinstance(n.target, ast.Name):
+            binds.setdefault(n.target.id, []).append(n.value)
+        elif isinstance(n, ast.AugAssign) and isinstance(n.target, ast.Name):
+            binds.setdefault(n.target.id, []).append(ast.BinOp(ast.Name(n.target.id, ast.Load()), n.op, n.value))
+        elif isinstance(n, (ast.For, ast.comprehension)):
+            tg = n.target
+            if isinstance(tg, ast.Name):
+                v = ast.Constant(0) if isinstance(n.iter, ast.Call) and isinstance(n.iter.func, ast.Name) and n.iter.func.id == "range" else None
+                binds.setdefault(tg.id, []).append(v)
+            else:
+                for x in ast.walk(tg):
+                    if isinstance(x, ast.Name):
+                        binds.setdefault(x.id, []).append(None)
+        elif isinstance(n, (ast.With,)):
+            for it in n.items:
+                if it.optional_vars is not None:
+                    for x in ast.walk(it.optional_vars):
+                        if isinstance(x, ast.Name):
+                            binds.setdefault(x.id, []).append(None)
+    params = {a.arg for a in func_node.args.args + func_node.args.posonlyargs + func_node.args.kwonlyargs} if hasattr(func_node, "args") else set()
+    ints = set()
+    saved = set(canon.extra_ints)
+    changed = True
+    while changed:
+        changed = False
+        canon.extra_ints = saved | ints
+        for name, vals in binds.items():
+            if name in ints or name in params:
+                continue
+            if vals and all(v is not None and canon.is_int(v) for v in vals):
+                ints.add(name)
+                changed = True
+    canon.extra_ints = saved
+    return ints
 
 
 class State:
@@ -494,6 +555,8 @@ class SymWalker:
         self.final = []         # states falling off the end
         self.feasible = feasible or _prop_feasible
         self.converted = {}     # id(loop) -> >0 when every visit of the loop was rewritten as a comprehension
+        if isinstance(func_node, (ast.FunctionDef, ast.AsyncFunctionDef)):
+            self.canon.extra_ints = set(self.canon.extra_ints) | infer_int_locals(func_node, self.canon)
         self.functional = functional_locals(func_node) if isinstance(func_node, (ast.FunctionDef, ast.AsyncFunctionDef)) else set()
 
     # ---------------------------------------------------------------- values
@@ -1436,7 +1499,32 @@ def _rename_text(t, ren):
     return re.sub(r"(?<![A-Za-z_0-9.'\"])(%s)(?![A-Za-z_0-9'\"])" % "|".join(sorted(map(re.escape, ren), key=len, reverse=True)), lambda m: ren[m.group(1)], t)
 
 
-def _rename_formula(f, ren):
+def _resort_atom(t, canon):
+    """after renaming, operand orders chosen by text may have changed: re-canonicalise the atom"""
+    if canon is None or t.startswith("exc@"):
+        return t
+    try:
+        e = ast.parse(t, mode="eval").body
+    except SyntaxError:
+        return t
+    e = canon.expr(e)
+    if isinstance(e, ast.Compare) and len(e.ops) == 1 and isinstance(e.ops[0], ast.Eq):
+        a, b = sorted([norm(e.left), norm(e.comparators[0])])
+        return "%s == %s" % (a, b)
+    return norm(e)
+
+
+def _rename_formula(f, ren, canon=None):
+    if f in (True, False) or f[0] == "set":
+        return f
+    if f[0] == "op":
+        return ("op", _resort_atom(_rename_text(f[1], ren), canon) if ren else f[1])
+    if f[0] == "not":
+        return ("not", _rename_formula(f[1], ren, canon))
+    return (f[0], tuple(_rename_formula(g, ren, canon) for g in f[1]))
+
+
+def _rename_formula_old(f, ren):
     if f in (True, False) or f[0] == "set":
         return f
     if f[0] == "op":
@@ -1552,15 +1640,16 @@ def summarize(func_node, canon, leaf=None, keep=()):
     sigs = {nm: signature(nm) for nm in surviving}
     order = sorted(surviving, key=lambda nm: (sigs[nm], pos[nm]))
     ren = {nm: "_v%d" % i for i, nm in enumerate(order)}
+    canon.extra_ints = set(canon.extra_ints) | {ren[nm] for nm in ren if nm in canon.extra_ints or canon.int_name(nm)}
     items = []
     for k, parts, cond in raw:
         txt = ""
         for p_ in parts:
             if isinstance(p_, ast.AST):
-                txt += norm(_rename(p_, ren))
+                txt += norm(canon.expr(_rename(p_, ren))) if ren else norm(p_)
             else:
                 txt += _rename_text(p_, ren) if k == "effect" else p_
-        items.append(Item(k, txt, _rename_formula(cond, ren)))
+        items.append(Item(k, txt, _rename_formula(cond, ren, canon)))
     return Summary(items, w)
 
 
